@@ -78,7 +78,9 @@ Definition run (s : rstate) (is : list input) : rstate := fold_left step is s.
 
 End Loop.
 
-(* handleEthereumEvent turns each event of the range into a claim; an event whose fields txs.EthereumEventToEthBridgeClaim
-   refuses is logged and left out, the events after it are handled all the same: what the loop submits for a block is
-   the sub-list of its events that can be translated, in their order *)
-Definition translatable_events (tr : Z -> bool) (raw : Z -> list Z) : Z -> list Z := fun b => filter tr (raw b).
+(* handleEthereumEvent: the loop hands it all the burn / lock events of the range (and then sleeps, and writes the cursor,
+   whenever the range held at least one such event); it turns each event into a claim, logs and leaves out an event whose
+   fields txs.EthereumEventToEthBridgeClaim refuses, goes on with the next one, and broadcasts the claims in one
+   transaction. [r_submitted] is what was handed over; the claims that reach Sifchain are its translatable members, in
+   their order *)
+Definition handle_events (tr : Z -> bool) (evs : list (Z * Z)) : list (Z * Z) := filter (fun be => tr (snd be)) evs.
